@@ -81,6 +81,14 @@ pub fn classify(id: u64, cell: &A5Cell, p: LonLat, oracle: &RingOracle) -> (&'st
     (class, pm, rm)
 }
 
+/// the gnomonic chart behind ring_margin only sees the hemisphere around the point: a verdict from the ring alone is
+/// taken only when every ring vertex is within 80 degrees of the point
+fn ring_in_view(ring: &[P], pt: P) -> bool {
+    let u = |q: &P| [q.cosb() * q.lon.cos(), q.cosb() * q.lon.sin(), q.sinb()];
+    let a = u(&pt);
+    ring.iter().all(|v| { let b = u(v); a[0] * b[0] + a[1] * b[1] + a[2] * b[2] > 0.17365 })
+}
+
 fn fmt_ll(p: LonLat) -> Value { json!([format!("{:?}", p.longitude()), format!("{:?}", p.latitude())]) }
 fn q15(x: f64) -> i64 { (x * 1e15).clamp(-2e9, 2e9) as i64 }
 
@@ -144,6 +152,8 @@ pub fn interior_events(t: &mut Trace, op: &str, id: u64, rng: &mut Rng, depths: 
             t.emit(json!({"op": op, "id": quads(id), "res": res, "p": fmt_ll(p), "corner": k % 8 == 0, "depth": format!("{:e}", sign * d),
                           "class": class, "planar_e15": q15(pm), "ring_e15": q15(rm), "ok": back.is_some(), "back": quads(back.unwrap_or(0)),
                           "back_class": bclass, "back_planar_e15": q15(bpm), "back_ring_e15": q15(brm), "branch": info.branch,
+                          // inside the REPORTED boundary polygon by more than the tolerance, whatever the planar oracle says
+                          "ring_deep": rm > oracle.allowance + 2.0 * BAND && ring_in_view(&oracle.ring, p_of(p)),
                           "abslat": p.latitude().abs().floor() as i64}));
             n += 1;
         }
@@ -379,6 +389,8 @@ pub fn gen_c04(tier: &str, seed: u64, out: &str) -> Value {
 }
 
 /// poles, antimeridian, the 12 face centres, the 20 face vertices and 30 edge midpoints (from the res-0 rings)
+pub fn ring_ll_pub(id: u64, n: i32) -> Option<Vec<LonLat>> { ring_ll(id, n, false) }
+
 pub fn special_points() -> Vec<LonLat> {
     let mut v = vec![LonLat::new(0.0, 90.0), LonLat::new(0.0, -90.0), LonLat::new(180.0, 0.0), LonLat::new(-180.0, 45.0), LonLat::new(179.999999, -60.0)];
     // "round" coordinates people actually use and code special-cases: Null Island, the prime meridian, the equator,
@@ -839,7 +851,7 @@ pub fn gen_c02(tier: &str, seed: u64, out: &str) -> Value {
             let info = a5::verif::lookup_info();
             t.emit(json!({"op": "interior2", "id": quads(*cell), "res": res, "p": fmt_ll(p), "corner": false, "depth": format!("{:e}", depth),
                           "class": class, "planar_e15": q15(pm), "ring_e15": q15(rm), "ok": back.is_some(), "back": quads(back.unwrap_or(0)),
-                          "back_class": "n/a", "back_planar_e15": 0, "back_ring_e15": 0, "branch": info.branch, "abslat": lat.abs().floor() as i64}));
+                          "back_class": "n/a", "back_planar_e15": 0, "back_ring_e15": 0, "branch": info.branch, "ring_deep": rm > o.allowance + 2.0 * BAND && ring_in_view(&o.ring, p_of(p)), "abslat": lat.abs().floor() as i64}));
             n_hard += 1;
             n_i += 1;
             t.cut();
